@@ -39,8 +39,12 @@ func (p *PathBuilder) Pop() {
 func (p *PathBuilder) String() string {
 	sb := NewStringBuilder()
 	defer FreeStringBuilder(sb)
-	for i, v := range *p {
-		if i > 0 && (*p)[i-1] != "" && v[0] != '[' {
+	for _, v := range *p {
+		if v == "" {
+			// the root element, or a field whose tag is the empty string
+			continue
+		}
+		if sb.Len() > 0 && v[0] != '[' {
 			sb.WriteString(".")
 		}
 		sb.WriteString(v)
